@@ -432,6 +432,9 @@ func main() {
 		proposeMode = len(args) > 2 && args[2] == "propose"
 		cases, calls := 0, 0
 		shapes := map[string]bool{}
+		vh.AtRecycle = func() {
+			vh.Summary(map[string]interface{}{"partial": true, "cases": cases, "calls": calls, "distinct": len(shapes)})
+		}
 		want := func(idx int) bool {
 			if stride > 1 && idx%stride != int(vh.Seed())%stride {
 				return false
